@@ -11,6 +11,7 @@ class Context:
     def __init__(self):
         self._cell_translations: Dict[str, str] = {}
         self._sub_cell_translations: Dict[str, List] = {}
+        self._cells_in_progress: set = set()
         self._titles: Dict[str, int] = {}
         self._sheets_size: List[Dict[str, int]] = []
 
@@ -892,6 +893,18 @@ class ExcelInPython:
     @staticmethod
     def _get_cell_with_cell_preprocessor(cell_function_name: str) -> str:
         return f"self._cell_preprocessor('{cell_function_name}')"
+
+    def start_cell(self, cell_uid: str) -> bool:
+        """
+        Marks the cell as being translated. Returns False if it already is (circular reference).
+        """
+        if cell_uid in self._cells_in_progress:
+            return False
+        self._cells_in_progress.add(cell_uid)
+        return True
+
+    def finish_cell(self, cell_uid: str) -> None:
+        self._cells_in_progress.discard(cell_uid)
 
     def get_cell(self, cell: Cell) -> str or None:
         return self._get_cell_with_cell_preprocessor(
